@@ -29,6 +29,16 @@ TRUSTED = [
     "non-ASCII text is outside the model (Python's \\d \\w \\s are Unicode aware, the recognisers are ASCII)",
     "the Lean driver is run as a script (`lake env lean --run Driver/Show.lean`, Lean's interpreter) — the lakefile "
     "has no exe entry for this engine",
+    "harness/pygen.py + harness/pygen_pxindex.py (Python AST -> Lean, fails closed) regenerate I2N/Extracted/GenShow.lean "
+    "on every run from the source of QCOW2VTBackend.show (from `states = None` to its return) and of the combination part "
+    "of RamfileBackend._show (from `images_states = None` to the `None -> set()` fallback; the slice and the returned "
+    "variable are chosen by the harness); vtShow_matches_source / ramImagesStates_matches_source prove the model's "
+    "vtShow / ramImagesStates equal to them for any images and listings.  Trusted: the translator; the atoms "
+    "(params.objects('images') = the image names; the per-image listing call with image_params = "
+    "params.object_params(image_name) substituted is a function of the image name; the statement "
+    "image_params['images'] = image_name only prepares that call); a Python set is a list of which only membership is "
+    "observed; the second loop of RamfileBackend._show (the `.state` files and `if state in images_states`) is tied by the "
+    "differential runs only",
 ]
 
 ALPHA = ["launch", "launch_2-0", "boot3.0"]
@@ -807,3 +817,13 @@ def extract(ctx):
     if not os.path.exists(path) or open(path).read() != src:
         with open(path, "w") as fh:
             fh.write(src)
+    # second tie: the combination loops translated to Lean (raises pygen.Unsupported when a loop left the translated
+    # subset: run.py records that as a broken proof obligation and searches for a failing input)
+    import pygen_pxindex
+    if pygen_pxindex.extract_show(ctx):
+        ctx.notes.append("I2N/Extracted/GenShow.lean changed: the source of QCOW2VTBackend.show / RamfileBackend._show "
+                         "differs from the one the committed file was generated from (vtShow_matches_source, "
+                         "ramImagesStates_matches_source are re-checked)")
+    ctx.extra["regenerated"] = ("lean/I2N/Extracted/GenShow.lean (the combination loops of QCOW2VTBackend.show and "
+                                "RamfileBackend._show via harness/pygen_pxindex.py); obligations: vtShow_matches_source, "
+                                "ramImagesStates_matches_source, source_show_is_intersection")
